@@ -585,6 +585,9 @@ func runC01(c *Ctx) {
 		if r.Chance(1, 10) {
 			o.maxCols = 40
 		}
+		if hi%5 == 1 {
+			o.tableIDBase = 0xffffff // the id MySQL's dummy rows event carries is an ordinary id for a real table
+		}
 		h := genHistory(r, cfg, o)
 		h.encode(c)
 		fam := map[string]bool{}
